@@ -199,3 +199,25 @@ package svg
 //@   ensures[C19 absent-unchanged] (!has_family ==> rt.textAttr.FontFamily == old(rt.textAttr.FontFamily)) && (!has_style ==> rt.textAttr.FontStyle == old(rt.textAttr.FontStyle)) && (!has_baseline ==> rt.textAttr.Baseline == old(rt.textAttr.Baseline)) && (!has_align ==> rt.textAttr.TextAnchor == old(rt.textAttr.TextAnchor))
 //@   ensures[C19 pen-colour-kept] rt.attr.Fill == old(rt.attr.Fill) && rt.attr.Stroke == old(rt.attr.Stroke)
 //@   modifies rt.textAttr.FontFamily, rt.textAttr.FontStyle, rt.textAttr.FontSize, rt.textAttr.FontWeight, rt.textAttr.Baseline, rt.textAttr.TextAnchor, rt.textAttr.LetterSpacing, rt.SVG.Elements, rt.elements, class elem:any, class svg.Line.Attr, class svg.Circle.Attr, class svg.Rect.Attr, class svg.Polyline.Attr, class svg.Ellipse.Attr, class svg.Text.Attr, class svg.Text.TextAttr, class svg.Group.Attr, class svg.Group.TextAttr
+
+//@ func (rt *GraphicsPlatform) Poly(vertices [][]float64)
+//@   props C19
+//@   requires[vertex-pairs] forall(i, int, 0 <= i && i < len(vertices) ==> len(vertices[i]) >= 2)
+//@   let n = old(len(rt.elements))
+//@   let el = rt.elements[n]
+//@   ensures[C19 one-shape] len(rt.elements) == n + 1 && is(el, *Polyline) && fresh(el)
+//@   ensures[C19 earlier-kept] forall(i, int, 0 <= i && i < n ==> rt.elements[i] == old(rt.elements[i]))
+//@   ensures[C19 points-joined] ncalls("Join") == 1 && el.(*Polyline).Points == callres("Join", 1, 0)
+//@   modifies rt.elements, class elem:any
+//@   loop 1 modifies points[*]
+//@   loop 1 invariant -1 <= rangeindex && rangeindex < len(vertices) && fresh(points) && len(points) == len(vertices) && off(points) == 0 && ncalls("Join") == 0
+//@   loop 1 invariant forall(i, int, 0 <= i && i <= rangeindex ==> points[i] == concat(concat(strconv.FormatFloat(10.0 * vertices[i][0], 102, -1, 64), ","), strconv.FormatFloat(1000.0 - 10.0 * vertices[i][1], 102, -1, 64)))
+
+//@ func (rt *GraphicsPlatform) Dash(segments []float64)
+//@   props C19
+//@   ensures[C19 flush-first] ncalls("(*GraphicsPlatform).Push") == 1
+//@   ensures[C19 pen] ncalls("Join") == 1 && rt.attr.StrokeDashArray == callres("Join", 1, 0)
+//@   modifies rt.attr.StrokeDashArray, rt.SVG.Elements, rt.elements, class elem:any, class svg.Line.Attr, class svg.Circle.Attr, class svg.Rect.Attr, class svg.Polyline.Attr, class svg.Ellipse.Attr, class svg.Text.Attr, class svg.Text.TextAttr, class svg.Group.Attr, class svg.Group.TextAttr
+//@   loop 1 modifies segmentStrings[*]
+//@   loop 1 invariant -1 <= rangeindex && rangeindex < len(segments) && fresh(segmentStrings) && len(segmentStrings) == len(segments) && off(segmentStrings) == 0 && ncalls("Join") == 0 && ncalls("(*GraphicsPlatform).Push") == 1
+//@   loop 1 invariant forall(i, int, 0 <= i && i <= rangeindex ==> segmentStrings[i] == strconv.FormatFloat(10.0 * segments[i], 102, -1, 64))
